@@ -264,3 +264,8 @@ def run(ctx):
     hermite_complete(ctx, lib)
     constant_strain(ctx, lib, want)
     beamops.rule(ctx, lib, "R1.7")  # constant axial strain / curvature of beams
+    # 'the strains and stresses reported afterwards are the constant values of that field': the extraction path (R16.4, R16.7)
+    from . import c16
+
+    c16.extractor_rules(ctx)
+    c16.field_e_rule(ctx)
